@@ -5,7 +5,7 @@
   whose two legs share schedule and basis on one curve is worth zero.
   Over an arbitrary field; witnesses over ℚ.
 -/
-import FinVerif.Props.C06a
+import FinVerif.Props.C06b
 import FinVerif.Model.C06x
 import FinVerif.Spec.C06x
 import Mathlib.Algebra.Order.Ring.Rat
@@ -19,48 +19,169 @@ set_option linter.unusedVariables false
 namespace FinVerif.Props.C06
 open FinVerif FinVerif.Spec.C06 FinVerif.Model.C06 FinVerif.Lemmas.C06
 
-/-! ### `_fill_rate_notional_array`: repeat structure -/
+/-! ### `_fill_rate_notional_array` (as repaired): assignment by accrual dates -/
 
 section fill
 variable {β : Type}
 
-/-- The filled array has `multiple × (number of equity resets)` entries. -/
+lemma advancePtr_ne_nil (s : Int) : ∀ (es : List (Int × β)), es ≠ [] → advancePtr s es ≠ []
+  | [], h => h
+  | [_], _ => by simp [advancePtr]
+  | e :: e' :: rest, _ => by
+    unfold advancePtr
+    split
+    · exact advancePtr_ne_nil s (e' :: rest) (by simp)
+    · simp
+
+/-- One entry per rate period. -/
+theorem assign_length (ss : List Int) : ∀ (es : List (Int × β)), es ≠ [] → (assignNotionals es ss).length = ss.length := by
+  induction ss with
+  | nil => intro es _; simp [assignNotionals]
+  | cons s ss ih =>
+    intro es hne
+    have h := advancePtr_ne_nil s es hne
+    unfold assignNotionals
+    cases hA : advancePtr s es with
+    | nil => exact absurd hA h
+    | cons e es' => simp [ih (e :: es') (by simp)]
+
+/-- The pointer only moves forward: searching for a later start from where an earlier search stopped finds what a
+search from the beginning finds. -/
+lemma advancePtr_mono (s' s : Int) (h : s' ≤ s) : ∀ (es : List (Int × β)), advancePtr s (advancePtr s' es) = advancePtr s es
+  | [] => rfl
+  | [_] => by simp [advancePtr]
+  | e :: e' :: rest => by
+    by_cases h1 : e.1 ≤ s'
+    · have h2 : e.1 ≤ s := le_trans h1 h
+      simp only [advancePtr, h1, h2, if_true]
+      exact advancePtr_mono s' s h (e' :: rest)
+    · simp [advancePtr, h1]
+
+/-- With accrual starts in date order the carried pointer does what an independent search per rate period does:
+entry `j` is the notional of the first equity period (from the pointer's start) that ends after `start_j`, the last
+period if none does. -/
+theorem assign_eq_search (ss : List Int) (hs : ss.Pairwise (· ≤ ·)) : ∀ (es : List (Int × β)), es ≠ [] →
+    (assignNotionals es ss).map some = ss.map (fun s => (advancePtr s es).head?.map (·.2)) := by
+  induction ss with
+  | nil => intro es _; simp [assignNotionals]
+  | cons s ss ih =>
+    intro es hne
+    have h := advancePtr_ne_nil s es hne
+    obtain ⟨hs1, hs2⟩ := List.pairwise_cons.mp hs
+    unfold assignNotionals
+    cases hA : advancePtr s es with
+    | nil => exact absurd hA h
+    | cons e es' =>
+      have h1 : (advancePtr s es).head?.map (·.2) = some e.2 := by simp [hA]
+      simp only [List.map_cons, h1]
+      rw [ih hs2 (e :: es') (by simp)]
+      congr 1
+      apply List.map_congr_left
+      intro t ht
+      rw [← hA, advancePtr_mono s t (hs1 t ht)]
+
+lemma assign_stay (e : Int × β) (es : List (Int × β)) (s : Int) (ss : List Int) (h : s < e.1) :
+    assignNotionals (e :: es) (s :: ss) = e.2 :: assignNotionals (e :: es) ss := by
+  have hn : ¬ e.1 ≤ s := not_le.mpr h
+  cases es with
+  | nil => simp [assignNotionals, advancePtr]
+  | cons e' rest => simp [assignNotionals, advancePtr, hn]
+
+lemma assign_skip (e e' : Int × β) (rest : List (Int × β)) (ss : List Int) (h : ∀ s ∈ ss, e.1 ≤ s) :
+    assignNotionals (e :: e' :: rest) ss = assignNotionals (e' :: rest) ss := by
+  cases ss with
+  | nil => simp [assignNotionals]
+  | cons s ss => simp [assignNotionals, advancePtr, h s (by simp)]
+
+lemma assign_prefix (e : Int × β) (es : List (Int × β)) (S T : List Int) (h : ∀ s ∈ S, s < e.1) :
+    assignNotionals (e :: es) (S ++ T) = List.replicate S.length e.2 ++ assignNotionals (e :: es) T := by
+  induction S with
+  | nil => simp
+  | cons s S ih =>
+    rw [List.cons_append, assign_stay e es s _ (h s (by simp)), ih (fun t ht => h t (by simp [ht]))]
+    simp [List.replicate_succ]
+
+/-- The rate periods come in blocks, one block per equity period: every accrual start of block `k` lies before the end
+of equity period `k`, and on or after the end of every earlier equity period. -/
+def AlignedDates : List Int → List (List Int) → Prop
+  | [], [] => True
+  | d :: ds, S :: Ss => (∀ s ∈ S, s < d) ∧ (∀ T ∈ Ss, ∀ s ∈ T, d ≤ s) ∧ AlignedDates ds Ss
+  | _, _ => False
+
+/-- Every rate period of block `k` on the reset notional of equity period `k`. -/
+def blockNotionals : List β → List (List Int) → List β
+  | x :: xs, S :: Ss => List.replicate S.length x ++ blockNotionals xs Ss
+  | _, _ => []
+
+/-- C06 **notional by containment** (blocks of ANY sizes — stubs, unequal numbers of rate periods per reset): the
+repaired fill gives every rate period of block `k` the reset notional of equity period `k`. -/
+theorem assign_blocks : ∀ (es : List (Int × β)) (Ss : List (List Int)), AlignedDates (es.map (·.1)) Ss →
+    assignNotionals es Ss.flatten = blockNotionals (es.map (·.2)) Ss
+  | [], [], _ => by simp [assignNotionals, blockNotionals]
+  | [], _ :: _, h => by simp [AlignedDates] at h
+  | _ :: _, [], h => by simp [AlignedDates] at h
+  | e :: es, S :: Ss, h => by
+    simp only [List.map_cons, AlignedDates] at h
+    obtain ⟨h1, h2, h3⟩ := h
+    rw [List.flatten_cons, assign_prefix e es S _ h1]
+    simp only [List.map_cons, blockNotionals]
+    congr 1
+    cases es with
+    | nil =>
+      cases Ss with
+      | nil => simp [assignNotionals, blockNotionals]
+      | cons T Ts => simp [AlignedDates] at h3
+    | cons e' rest =>
+      rw [assign_skip e e' rest _ (by
+        intro s hs
+        obtain ⟨T, hT, hsT⟩ := List.mem_flatten.mp hs
+        exact h2 T hT s hsT)]
+      exact assign_blocks (e' :: rest) Ss h3
+
+/-- The layout before the repair, for comparison. -/
 theorem fill_length (m : Nat) (ls : List β) : (fillNotionals m ls).length = m * ls.length := by
   induction ls with
   | nil => simp [fillNotionals]
   | cons x xs ih => simp [fillNotionals, ih, Nat.mul_succ, Nat.add_comm]
 
-/-- C06 **repeat structure**: entry `i` of the rate leg's notional array is the reset notional of equity period
-`i / multiple` — rate periods `k·m … k·m + m − 1` all accrue on reset `k`. -/
-theorem fill_get (m : Nat) (hm : 0 < m) (ls : List β) (i : Nat) :
-    (fillNotionals m ls)[i]? = rateNotional m ls i := by
-  unfold rateNotional
-  induction ls generalizing i with
-  | nil => simp [fillNotionals]
-  | cons x xs ih =>
-    simp only [fillNotionals]
-    by_cases h : i < m
-    · rw [List.getElem?_append_left (by simpa using h)]
-      simp [List.getElem?_replicate, h, Nat.div_eq_of_lt h]
-    · have hge : m ≤ i := Nat.le_of_not_lt h
-      rw [List.getElem?_append_right (by simpa using hge)]
-      simp only [List.length_replicate]
-      rw [ih (i - m)]
-      have : i / m = (i - m) / m + 1 := by
-        rw [Nat.div_eq_sub_div hm hge]
-      rw [this, List.getElem?_cons_succ]
+/-- When every block has exactly `m` rate periods the repaired fill is the old repeat-`m`-times layout … -/
+theorem assign_eq_fill_of_equal_blocks (m : Nat) : ∀ (es : List (Int × β)) (Ss : List (List Int)),
+    AlignedDates (es.map (·.1)) Ss → (∀ S ∈ Ss, S.length = m) →
+    assignNotionals es Ss.flatten = fillNotionals m (es.map (·.2)) := by
+  intro es Ss h hm
+  rw [assign_blocks es Ss h]
+  induction es generalizing Ss with
+  | nil => cases Ss <;> simp [blockNotionals, fillNotionals]
+  | cons e es ih =>
+    cases Ss with
+    | nil => simp [AlignedDates] at h
+    | cons S Ss =>
+      simp only [List.map_cons, AlignedDates] at h
+      simp only [List.map_cons, blockNotionals, fillNotionals, hm S (by simp)]
+      congr 1
+      exact ih Ss h.2.2 (fun T hT => hm T (by simp [hT]))
 
-/-- With `multiple = 1` (equal frequencies) the fill is the identity … -/
-theorem fill_one (ls : List β) : fillNotionals 1 ls = ls := by
-  induction ls with
-  | nil => rfl
-  | cons x xs ih => simp [fillNotionals, ih, List.replicate]
+/-- … but with a front stub it is not: equity periods `[0,1)`, `[1,5)`, rate periods starting 0, 1, 3 (one in the stub,
+two in the full period), `multiple = 2`: the repaired fill gives `[a, b, b]`, the old layout `[a, a, b]`. -/
+theorem assign_ne_fill_front_stub (a b : β) (h : a ≠ b) :
+    assignNotionals [(1, a), (5, b)] [0, 1, 3] ≠ (fillNotionals 2 [a, b]).take 3 := by
+  simp [assignNotionals, advancePtr, fillNotionals, List.replicate]
+  intro h1
+  exact absurd h1.symm h
 
-/-- … and so is tiling: with equal frequencies the two arrangements cannot be told apart. -/
-theorem tile_one (ls : List β) : tileNotionals 1 ls = ls := by
-  simp [tileNotionals]
+/-- C06 **repeat, not tile**: two resets, two rate periods each — `[a, a, b, b]`, not the tiled `[a, b, a, b]`. -/
+theorem assign_ne_tile (a b : β) (h : a ≠ b) :
+    assignNotionals [(2, a), (4, b)] [0, 1, 2, 3] ≠ tileNotionals 2 [a, b] := by
+  simp [assignNotionals, advancePtr, tileNotionals]
+  intro h1
+  exact absurd h1 h
 
-/-- With a single equity reset the two arrangements coincide as well. -/
+/-- With a single equity reset every arrangement coincides (why one-period swaps cannot tell them apart). -/
+theorem assign_single (d : Int) (a : β) (ss : List Int) : assignNotionals [(d, a)] ss = List.replicate ss.length a := by
+  induction ss with
+  | nil => simp [assignNotionals]
+  | cons s ss ih => simp [assignNotionals, advancePtr, ih, List.replicate_succ]
+
 theorem fill_eq_tile_single (m : Nat) (a : β) : fillNotionals m [a] = tileNotionals m [a] := by
   induction m with
   | zero => simp [fillNotionals, tileNotionals]
@@ -69,17 +190,16 @@ theorem fill_eq_tile_single (m : Nat) (a : β) : fillNotionals m [a] = tileNotio
     rw [← ih]
     simp [List.replicate_succ]
 
-/-- C06 **repeat, not tile**: as soon as there are two resets with different notionals and the rate leg pays twice
-per reset, the array the code builds `[a, a, b, b]` is not the tiled one `[a, b, a, b]`. -/
+/-- The old layout against tiling (kept: both are refuted arrangements now). -/
 theorem fill_ne_tile (a b : β) (h : a ≠ b) : fillNotionals 2 [a, b] ≠ tileNotionals 2 [a, b] := by
   simp [fillNotionals, tileNotionals, List.replicate]
   intro h1
   exact absurd h1 h
 
-/-- The frequency test of `_fill_rate_notional_array`: accepted iff the rate frequency is a multiple of the equity
-frequency, and then every reset notional is repeated `rate_freq / eq_freq` times. -/
-theorem fillRate_ok_iff (eqFreq rateFreq : Nat) (ls : List β) :
-    (∃ arr, fillRateNotionals eqFreq rateFreq ls = .ok arr) ↔ rateFreq % eqFreq = 0 := by
+/-- The frequency test of `_fill_rate_notional_array` (kept by the repair): accepted iff the rate frequency is a
+multiple of the equity frequency. -/
+theorem fillRate_ok_iff (eqFreq rateFreq : Nat) (ends : List Int) (ls : List β) (ss : List Int) :
+    (∃ arr, fillRateNotionals eqFreq rateFreq ends ls ss = .ok arr) ↔ rateFreq % eqFreq = 0 := by
   unfold fillRateNotionals
   by_cases h : rateFreq % eqFreq = 0 <;> simp [h]
 
@@ -219,106 +339,243 @@ lemma eqResetNotionals_length (dfI : Int → K) (iyf : Int → Int → K) (dvd :
   | nil => rfl
   | cons p ps ih => simp [eqResetNotionals, ih]
 
-/-- Period by period: what the equity leg pays is what the floating leg accrues on the reset notional, when the
-two legs share dates and basis, there are no dividends, and everything is still to be paid. -/
-lemma eq_flows_eq_float_flows (df : Int → K) (yfI : Int → Int → K) (dvd : Int → K) (price qty : K) (vd : Int) (G : K)
-    (ps : List (Period K))
-    (hfut : ∀ p ∈ ps, vd < p.pay) (hbasis : ∀ p ∈ ps, yfI p.start p.stop = p.yf) (hyf : ∀ p ∈ ps, p.yf ≠ 0)
-    (hdiv : ∀ p ∈ ps, dvd p.start / dvd p.stop = 1) :
-    pv df vd (eqFlows df yfI dvd price qty vd G (price * G * qty) ps)
-      = pv df vd ((ps.zip (eqResetNotionals df yfI dvd price qty G ps)).map (fwdFlow df yfI 0)) := by
-  induction ps generalizing G with
-  | nil => simp [eqFlows, eqResetNotionals, pv_nil]
-  | cons p ps ih =>
-    have hp : vd < p.pay := hfut p (by simp)
-    have hb := hbasis p (by simp)
-    have hy := hyf p (by simp)
-    have hd := hdiv p (by simp)
-    have hg : eqGrowth df yfI dvd p = df p.start / df p.stop := by
-      rw [eqGrowth_matching_basis df yfI dvd p hb hy, hd, mul_one]
-    simp only [eqFlows, hp, if_true, eqResetNotionals, List.zip_cons_cons, List.map_cons, pv_cons, Flow.amount,
-      fwdFlow, fwdRate]
-    rw [ih _ (fun q hq => hfut q (by simp [hq])) (fun q hq => hbasis q (by simp [hq]))
-      (fun q hq => hyf q (by simp [hq])) (fun q hq => hdiv q (by simp [hq]))]
-    rw [hg, hb]
-    field_simp
-    ring
+/-- The search of the repaired fill lands in the equity period that contains the date (`Spec.rateNotional`), for
+contiguous equity periods and a date inside their span. -/
+theorem ptr_eq_rateNotional (s : Int) : ∀ (eqs : List (Period K × K)), Contiguous (eqs.map (·.1)) →
+    (∀ e0, eqs.head? = some e0 → e0.1.start ≤ s) → (∀ eL, eqs.getLast? = some eL → s < eL.1.stop) →
+    (advancePtr s (eqs.map (fun e => (e.1.stop, e.2)))).head?.map (·.2) = rateNotional eqs s
+  | [], _, _, _ => rfl
+  | [e], _, h0, h1 => by
+    have a := h0 e rfl
+    have b := h1 e rfl
+    simp [advancePtr, rateNotional, List.find?, a, b]
+  | e :: e' :: rest, hc, h0, h1 => by
+    have a := h0 e rfl
+    obtain ⟨hcc, hc'⟩ := hc
+    by_cases hs : e.1.stop ≤ s
+    · have hn : ¬ s < e.1.stop := not_lt.mpr hs
+      have ih := ptr_eq_rateNotional s (e' :: rest) hc'
+        (by intro e0 he0; simp at he0; subst he0; exact hcc ▸ hs)
+        (by intro eL heL; exact h1 eL (by simpa [List.getLast?_cons_cons] using heL))
+      simp only [List.map_cons, advancePtr, hs, if_true] at ih ⊢
+      rw [ih]
+      simp [rateNotional, List.find?, hn]
+    · have hlt : s < e.1.stop := not_le.mp hs
+      simp [advancePtr, hs, rateNotional, List.find?, a, hlt]
 
-/-- C06 **equity_swap_zero_at_inception**: equal frequencies and one schedule for both legs, matching bases, one curve
-for projection and discounting, no dividends, no spread, no first fixing, current price = strike, every period
-still to be paid ⇒ the swap is worth exactly zero ("entered into at zero initial cost when spreads are zero"), for
-any number of periods, any payment lag, contiguous or not. -/
+/-- C06 **notional by containment**: contiguous equity periods, rate accrual starts in date order inside their span ⇒
+entry `j` of the notional array is the reset notional of the equity period that contains `start_j`. -/
+theorem assign_get (eqs : List (Period K × K)) (ss : List Int) (hne : eqs ≠ []) (hc : Contiguous (eqs.map (·.1)))
+    (hs : ss.Pairwise (· ≤ ·))
+    (h0 : ∀ e0, eqs.head? = some e0 → ∀ s ∈ ss, e0.1.start ≤ s)
+    (h1 : ∀ eL, eqs.getLast? = some eL → ∀ s ∈ ss, s < eL.1.stop) :
+    (assignNotionals (eqs.map (fun e => (e.1.stop, e.2))) ss).map some = ss.map (rateNotional eqs) := by
+  rw [assign_eq_search ss hs _ (by simpa using hne)]
+  apply List.map_congr_left
+  intro s hs'
+  exact ptr_eq_rateNotional s eqs hc (fun e0 he => h0 e0 he s hs') (fun eL he => h1 eL he s hs')
+
+/-- One equity period together with the rate periods that tile it, everything still to be paid on one curve with
+matching bases, payment on the accrual end dates, no dividends. -/
+structure GoodBlock (df : Int → K) (yfI : Int → Int → K) (dvd : Int → K) (vd : Int) (p : Period K) (qs : List (Period K)) : Prop where
+  pfut : vd < p.pay
+  plag : p.pay = p.stop
+  pbasis : yfI p.start p.stop = p.yf
+  pyf : p.yf ≠ 0
+  pdiv : dvd p.start / dvd p.stop = 1
+  pdf : df p.stop ≠ 0
+  ne : qs ≠ []
+  first : ∀ q0, qs.head? = some q0 → q0.start = p.start
+  last : ∀ qL, qs.getLast? = some qL → qL.stop = p.stop
+  fut : ∀ q ∈ qs, vd < q.pay
+  lag : ∀ q ∈ qs, q.pay = q.stop
+  basis : ∀ q ∈ qs, yfI q.start q.stop = q.yf
+  yf : ∀ q ∈ qs, q.yf ≠ 0
+  dfq : ∀ q ∈ qs, df q.stop ≠ 0
+  cont : Contiguous qs
+
+/-- The reset notional of every block, repeated over the block's rate periods. -/
+def blockResetNotionals (df : Int → K) (yfI : Int → Int → K) (dvd : Int → K) (price qty : K) :
+    K → List (Period K × List (Period K)) → List K
+  | _, [] => []
+  | G, b :: bs => List.replicate b.2.length (price * G * qty)
+      ++ blockResetNotionals df yfI dvd price qty (eqGrowth df yfI dvd b.1 * G) bs
+
+lemma blockNotionals_eq (df : Int → K) (yfI : Int → Int → K) (dvd : Int → K) (price qty : K) :
+    ∀ (G : K) (bs : List (Period K × List (Period K))),
+    blockNotionals (eqResetNotionals df yfI dvd price qty G (bs.map (·.1))) (bs.map (fun b => b.2.map (·.start)))
+      = blockResetNotionals df yfI dvd price qty G bs
+  | _, [] => by simp [blockNotionals, blockResetNotionals, eqResetNotionals]
+  | G, b :: bs => by
+    simp only [List.map_cons, eqResetNotionals, blockNotionals, blockResetNotionals, List.length_map]
+    rw [blockNotionals_eq df yfI dvd price qty _ bs]
+
+lemma blockResetNotionals_length (df : Int → K) (yfI : Int → Int → K) (dvd : Int → K) (price qty : K) :
+    ∀ (G : K) (bs : List (Period K × List (Period K))),
+    (blockResetNotionals df yfI dvd price qty G bs).length = (bs.map (·.2)).flatten.length
+  | _, [] => rfl
+  | G, b :: bs => by
+    simp [blockResetNotionals, blockResetNotionals_length df yfI dvd price qty _ bs]
+
+/-- Block by block: what the equity leg pays at the end of a reset period is what the floating coupons inside that
+period, all on that period's reset notional, are worth together (they telescope). -/
+lemma eq_flows_eq_block_flows (df : Int → K) (yfI : Int → Int → K) (dvd : Int → K) (price qty : K) (vd : Int) :
+    ∀ (G : K) (bs : List (Period K × List (Period K))), (∀ b ∈ bs, GoodBlock df yfI dvd vd b.1 b.2) →
+    pv df vd (eqFlows df yfI dvd price qty vd G (price * G * qty) (bs.map (·.1)))
+      = pv df vd (((bs.map (·.2)).flatten.zip (blockResetNotionals df yfI dvd price qty G bs)).map (fwdFlow df yfI 0))
+  | _, [], _ => by simp [eqFlows, blockResetNotionals, pv_nil]
+  | G, b :: bs, hg => by
+    have g := hg b (by simp)
+    have ih := eq_flows_eq_block_flows df yfI dvd price qty vd (eqGrowth df yfI dvd b.1 * G) bs
+      (fun c hc => hg c (by simp [hc]))
+    have hgr : eqGrowth df yfI dvd b.1 = df b.1.start / df b.1.stop := by
+      rw [eqGrowth_matching_basis df yfI dvd b.1 g.pbasis g.pyf, g.pdiv, mul_one]
+    simp only [List.map_cons, eqFlows, g.pfut, if_true, pv_cons, Flow.amount, List.flatten_cons, blockResetNotionals]
+    rw [ih, List.zip_append (by simp), List.map_append, pv_append]
+    congr 1
+    -- the block's coupons telescope
+    obtain ⟨q0, rest, hq⟩ := List.exists_cons_of_ne_nil g.ne
+    have hzip : (b.2.zip (List.replicate b.2.length (price * G * qty))).map (fwdFlow df yfI 0)
+        = b.2.map (fun q => fwdFlow df yfI 0 (q, price * G * qty)) := by
+      rw [zip_replicate, List.map_map]; rfl
+    rw [hzip]
+    have ht := tele_sum df yfI vd (price * G * qty) q0 rest (hq ▸ g.fut) (hq ▸ g.lag) (hq ▸ g.basis) (hq ▸ g.yf)
+      (hq ▸ g.dfq) (hq ▸ g.cont)
+    rw [hq, ht]
+    have hs : q0.start = b.1.start := g.first q0 (by rw [hq]; rfl)
+    have he : ((q0 :: rest).getLast (by simp)).stop = b.1.stop :=
+      g.last _ (by rw [hq, List.getLast?_eq_some_getLast (by simp)])
+    rw [hs, he, hgr, g.plag]
+    have := g.pdf
+    field_simp
+
+/-- C06 **equity_swap_zero_at_inception** (general): the rate leg may pay more often than the equity leg resets, the
+schedules may have stubs and blocks of different sizes — as long as every equity period is tiled by its own rate
+periods (`GoodBlock`) and the blocks are in date order (`AlignedDates`), with one curve for projection and
+discounting, matching bases, payment on the accrual end dates, no dividends, no spread, no first fixing, price =
+strike, everything still to be paid and a rate frequency that is a multiple of the equity frequency: the swap is
+worth exactly zero.  Any number of blocks, any block sizes. -/
 theorem equity_swap_zero_at_inception (df : Int → K) (yfI : Int → Int → K) (dvd : Int → K) (vd : Int) (eqIsPay : Bool)
-    (strike qty : K) (f : Nat) (hf : 0 < f) (ps : List (Period K))
-    (hfut : ∀ p ∈ ps, vd < p.pay) (hbasis : ∀ p ∈ ps, yfI p.start p.stop = p.yf) (hyf : ∀ p ∈ ps, p.yf ≠ 0)
-    (hdiv : ∀ p ∈ ps, dvd p.start / dvd p.stop = 1)
-    (hdf : ∀ p ∈ ps, df p.stop ≠ 0) (hv : df vd ≠ 0) :   -- where the code divides (not needed by the algebra: kept so that
-                                                          -- the field's x/0 = 0 never stands for a ZeroDivisionError)
-    eqSwapValue df ⟨df, yfI⟩ dvd none none (mkEqSwap eqIsPay strike qty 0 f f ps ps) vd = .ok 0 := by
-  have hstate : eqState df ⟨df, yfI⟩ dvd none (mkEqSwap eqIsPay strike qty 0 f f ps ps).eq vd
-      = ps.foldl (eqStep df ⟨df, yfI⟩ dvd strike qty (strike * qty) vd (df vd)) (EqSt.init (strike * qty)) := rfl
-  have hfill : fillRateNotionals f f (eqLastNotionals (eqState df ⟨df, yfI⟩ dvd none (mkEqSwap eqIsPay strike qty 0 f f ps ps).eq vd))
-      = .ok (eqResetNotionals df yfI dvd strike qty 1 ps) := by
-    unfold fillRateNotionals
-    simp only [Nat.mod_self, ne_eq, not_true_eq_false, if_false, Nat.div_self hf, fill_one]
-    rw [hstate, eqFold_lastNs df ⟨df, yfI⟩ dvd strike qty (strike * qty) vd ps _ (by simp [EqSt.init]) hfut]
+    (strike qty : K) (fe fr : Nat) (hfreq : fr % fe = 0) (bs : List (Period K × List (Period K)))
+    (hgood : ∀ b ∈ bs, GoodBlock df yfI dvd vd b.1 b.2)
+    (halign : AlignedDates (bs.map (·.1.stop)) (bs.map (fun b => b.2.map (·.start))))
+    (hv : df vd ≠ 0) :
+    eqSwapValue df ⟨df, yfI⟩ dvd none none
+      (mkEqSwap eqIsPay strike qty 0 fe fr (bs.map (·.1)) (bs.map (·.2)).flatten) vd = .ok 0 := by
+  have hfut : ∀ p ∈ bs.map (·.1), vd < p.pay := by
+    intro p hp; obtain ⟨b, hb, rfl⟩ := List.mem_map.mp hp; exact (hgood b hb).pfut
+  have hstate : eqState df ⟨df, yfI⟩ dvd none (mkEqSwap eqIsPay strike qty 0 fe fr (bs.map (·.1)) (bs.map (·.2)).flatten).eq vd
+      = (bs.map (·.1)).foldl (eqStep df ⟨df, yfI⟩ dvd strike qty (strike * qty) vd (df vd)) (EqSt.init (strike * qty)) := rfl
+  have hlast : eqLastNotionals (eqState df ⟨df, yfI⟩ dvd none
+      (mkEqSwap eqIsPay strike qty 0 fe fr (bs.map (·.1)) (bs.map (·.2)).flatten).eq vd)
+      = eqResetNotionals df yfI dvd strike qty 1 (bs.map (·.1)) := by
+    rw [hstate, eqFold_lastNs df ⟨df, yfI⟩ dvd strike qty (strike * qty) vd _ _ (by simp [EqSt.init]) hfut]
     simp [EqSt.init, eqLastNotionals]
-  have hpv : (eqState df ⟨df, yfI⟩ dvd none (mkEqSwap eqIsPay strike qty 0 f f ps ps).eq vd).pv
-      = pv df vd (eqFlows df yfI dvd strike qty vd 1 (strike * 1 * qty) ps) := by
-    rw [hstate, eqFold_pv df ⟨df, yfI⟩ dvd strike qty (strike * qty) vd ps _ rfl]
+  have hrl : (eqResetNotionals df yfI dvd strike qty 1 (bs.map (·.1))).length = (bs.map (·.1)).length :=
+    eqResetNotionals_length _ _ _ _ _ _ _
+  have hfill : fillRateNotionals fe fr ((bs.map (·.1)).map (·.stop))
+      (eqResetNotionals df yfI dvd strike qty 1 (bs.map (·.1))) ((bs.map (·.2)).flatten.map (·.start))
+      = .ok (blockResetNotionals df yfI dvd strike qty 1 bs) := by
+    unfold fillRateNotionals
+    simp only [hfreq, ne_eq, not_true_eq_false, if_false]
+    congr 1
+    have hflat : (bs.map (·.2)).flatten.map (·.start) = (bs.map (fun b => b.2.map (·.start))).flatten := by
+      rw [List.map_flatten, List.map_map]; rfl
+    rw [hflat, assign_blocks _ _ (by
+      rw [List.map_fst_zip (by simp [hrl])]
+      simpa [List.map_map, Function.comp_def] using halign)]
+    rw [List.map_snd_zip (by simp [hrl]), blockNotionals_eq]
+  have hpv : (eqState df ⟨df, yfI⟩ dvd none (mkEqSwap eqIsPay strike qty 0 fe fr (bs.map (·.1)) (bs.map (·.2)).flatten).eq vd).pv
+      = pv df vd (eqFlows df yfI dvd strike qty vd 1 (strike * 1 * qty) (bs.map (·.1))) := by
+    rw [hstate, eqFold_pv df ⟨df, yfI⟩ dvd strike qty (strike * qty) vd _ _ rfl]
     simp [EqSt.init]
-  have e1 : (mkEqSwap eqIsPay strike qty 0 f f ps ps).eqFreq = f := rfl
-  have e2 : (mkEqSwap eqIsPay strike qty 0 f f ps ps).rateFreq = f := rfl
+  have e1 : (mkEqSwap eqIsPay strike qty 0 fe fr (bs.map (·.1)) (bs.map (·.2)).flatten).eqFreq = fe := rfl
+  have e2 : (mkEqSwap eqIsPay strike qty 0 fe fr (bs.map (·.1)) (bs.map (·.2)).flatten).rateFreq = fr := rfl
+  have e3 : (mkEqSwap eqIsPay strike qty 0 fe fr (bs.map (·.1)) (bs.map (·.2)).flatten).eq.periods = bs.map (·.1) := rfl
+  have e4 : (mkEqSwap eqIsPay strike qty 0 fe fr (bs.map (·.1)) (bs.map (·.2)).flatten).rate.periods = (bs.map (·.2)).flatten := rfl
   unfold eqSwapValue
-  simp only [e1, e2, hfill, hpv]
+  simp only [e1, e2, e3, e4, hlast, hfill, hpv]
   congr 1
   rw [applySign_eq_signed]
-  have hlen : (eqResetNotionals df yfI dvd strike qty 1 ps).length = ps.length := eqResetNotionals_length _ _ _ _ _ _ _
+  have hlen := blockResetNotionals_length df yfI dvd strike qty 1 bs
   rw [float_leg_eq_sum _ _ _ _ _ (by simpa [mkEqSwap, mkFloatLeg] using hlen)]
-  rw [eq_flows_eq_float_flows df yfI dvd strike qty vd 1 ps hfut hbasis hyf hdiv]
-  simp only [mkEqSwap, mkFloatLeg, floatFlows, pv_append]
-  have hnone : ∀ l : List (Period K × K), floatCoupons df yfI none 0 vd l = l.map (fwdFlow df yfI 0) := by
-    intro l
-    induction l with
-    | nil => rfl
-    | cons x xs ih => by_cases h : vd < x.1.pay <;> simp [floatCoupons, h, ih]
-  rw [hnone]
-  have hprin : pv df vd (principalFlow (0 : K)
-      (((ps.zip (eqResetNotionals df yfI dvd strike qty 1 ps)).getLast?).map (fun x => (x.1.pay, x.2)))) = 0 := by
-    cases ((ps.zip (eqResetNotionals df yfI dvd strike qty 1 ps)).getLast?) with
+  rw [eq_flows_eq_block_flows df yfI dvd strike qty vd 1 bs hgood]
+  simp only [mkEqSwap, mkFloatLeg, floatFlows, pv_append, floatCoupons_none]
+  have hprin : ∀ o : Option (Period K × K), pv df vd (principalFlow (0 : K) (o.map (fun x => (x.1.pay, x.2)))) = 0 := by
+    intro o
+    cases o with
     | none => simp [principalFlow, pv_nil]
     | some x => simp [principalFlow, pv_cons, pv_nil, Flow.amount]
   rw [hprin]
   cases eqIsPay <;> simp [signed]
 
-/-- The hypotheses of `equity_swap_zero_at_inception` are satisfiable, with reset notionals that differ
-(df(1) = 1/2, df(2) = 1/5: the position doubles, then grows 2.5-fold). -/
-example : eqSwapValue (fun d => if d = 1 then (1 / 2 : ℚ) else if d = 2 then 1 / 5 else 1)
-      ⟨fun d => if d = 1 then (1 / 2 : ℚ) else if d = 2 then 1 / 5 else 1, fun _ _ => 1⟩ (fun _ => 1) none none
-      (mkEqSwap false 100 3 0 4 4 [⟨0, 1, 1, 1⟩, ⟨1, 2, 2, 1⟩] [⟨0, 1, 1, 1⟩, ⟨1, 2, 2, 1⟩]) 0 = .ok 0 :=
-  equity_swap_zero_at_inception _ _ _ _ _ _ _ 4 (by norm_num) _
-    (by intro p hp; simp at hp; rcases hp with rfl | rfl <;> norm_num)
-    (by intro p hp; simp at hp; rcases hp with rfl | rfl <;> rfl)
-    (by intro p hp; simp at hp; rcases hp with rfl | rfl <;> norm_num)
-    (by intro p hp; norm_num)
-    (by intro p hp; simp at hp; rcases hp with rfl | rfl <;> norm_num)
+/-- The hypotheses of `equity_swap_zero_at_inception` are satisfiable with a FRONT STUB and blocks of different sizes:
+equity periods `[0,1]` (stub, one rate period) and `[1,3]` (two rate periods `[1,2]`, `[2,3]`), annual resets against a
+semi-annual rate leg, discount factors 1, 1/2, 1/4, 1/5 — the reset notionals differ (300, then 600). -/
+example : eqSwapValue (fun d => if d = 1 then (1 / 2 : ℚ) else if d = 2 then 1 / 4 else if d = 3 then 1 / 5 else 1)
+      ⟨fun d => if d = 1 then (1 / 2 : ℚ) else if d = 2 then 1 / 4 else if d = 3 then 1 / 5 else 1, fun a b => b - a⟩
+      (fun _ => 1) none none
+      (mkEqSwap false 100 3 0 1 2 [⟨0, 1, 1, 1⟩, ⟨1, 3, 3, 2⟩] [⟨0, 1, 1, 1⟩, ⟨1, 2, 2, 1⟩, ⟨2, 3, 3, 1⟩]) 0 = .ok 0 := by
+  have h := equity_swap_zero_at_inception
+    (fun d => if d = 1 then (1 / 2 : ℚ) else if d = 2 then 1 / 4 else if d = 3 then 1 / 5 else 1) (fun a b => b - a)
+    (fun _ => 1) 0 false 100 3 1 2 (by norm_num)
+    [(⟨0, 1, 1, 1⟩, [⟨0, 1, 1, 1⟩]), (⟨1, 3, 3, 2⟩, [⟨1, 2, 2, 1⟩, ⟨2, 3, 3, 1⟩])]
+    (by
+      intro b hb
+      simp at hb
+      rcases hb with rfl | rfl
+      · exact { pfut := by norm_num, plag := rfl, pbasis := by norm_num, pyf := by norm_num, pdiv := by norm_num,
+                pdf := by norm_num, ne := by simp, first := by intro q h; simp at h; subst h; rfl,
+                last := by intro q h; simp at h; subst h; rfl,
+                fut := by intro q h; simp at h; subst h; norm_num, lag := by intro q h; simp at h; subst h; rfl,
+                basis := by intro q h; simp at h; subst h; norm_num, yf := by intro q h; simp at h; subst h; norm_num,
+                dfq := by intro q h; simp at h; subst h; norm_num, cont := trivial }
+      · exact { pfut := by norm_num, plag := rfl, pbasis := by norm_num, pyf := by norm_num, pdiv := by norm_num,
+                pdf := by norm_num, ne := by simp, first := by intro q h; simp at h; subst h; rfl,
+                last := by intro q h; simp [List.getLast?] at h; subst h; rfl,
+                fut := by intro q h; simp at h; rcases h with rfl | rfl <;> norm_num,
+                lag := by intro q h; simp at h; rcases h with rfl | rfl <;> rfl,
+                basis := by intro q h; simp at h; rcases h with rfl | rfl <;> norm_num,
+                yf := by intro q h; simp at h; rcases h with rfl | rfl <;> norm_num,
+                dfq := by intro q h; simp at h; rcases h with rfl | rfl <;> norm_num,
+                cont := ⟨rfl, trivial⟩ })
+    (by simp [AlignedDates])
     (by norm_num)
+  simpa using h
 
-/-- C06 **value = equity leg + rate leg** with the rate leg on the repeated reset notionals: when the frequency test
-passes, `EquitySwap.value` is the equity leg's discounted sum plus the floating leg's discounted sum computed on
-`notional_array[i] = last_notionals[i / multiple]`. -/
+/-- C06 **value = equity leg + rate leg** with the rate leg on the notionals assigned by accrual dates: when the
+frequency test passes, `EquitySwap.value` is the equity leg's discounted sum plus the floating leg's discounted sum
+computed on `notional_array = assignNotionals (equity ends × last_notionals) (rate accrual starts)`. -/
 theorem equity_swap_eq_sum (df : Int → K) (idx : IndexCurve K) (dvd : Int → K) (cur ff : Option K) (s : EqSwap K) (vd : Int)
-    (hm : s.rateFreq % s.eqFreq = 0)
-    (hlen : (fillNotionals (s.rateFreq / s.eqFreq) (eqLastNotionals (eqState df idx dvd cur s.eq vd))).length
-              = s.rate.periods.length) :
+    (hm : s.rateFreq % s.eqFreq = 0) (hne : s.eq.periods ≠ []) :
     eqSwapValue df idx dvd cur ff s vd
       = .ok (signed s.eq.isPay (pv df vd (eqFlows idx.df idx.yf dvd (s.eq.price cur) s.eq.qty vd 1 s.eq.notional s.eq.periods))
           + signed s.rate.isPay (pv df vd (floatFlows idx.df idx.yf ff s.rate.spread s.rate.principal vd
-              (s.rate.periods.zip (fillNotionals (s.rateFreq / s.eqFreq) (eqLastNotionals (eqState df idx dvd cur s.eq vd))))))) := by
+              (s.rate.periods.zip (assignNotionals ((s.eq.periods.map (·.stop)).zip (eqLastNotionals (eqState df idx dvd cur s.eq vd)))
+                (s.rate.periods.map (·.start))))))) := by
+  have hrows : ∀ (ps : List (Period K)) (st : EqSt K),
+      (eqLastNotionals (ps.foldl (eqStep df idx dvd (s.eq.price cur) s.eq.qty s.eq.notional vd (df vd)) st)).length
+        = (eqLastNotionals st).length + ps.length := by
+    intro ps
+    induction ps with
+    | nil => intro st; simp
+    | cons p ps ih =>
+      intro st
+      rw [List.foldl_cons, ih]
+      by_cases hp : vd < p.pay <;> simp [eqStep, hp, eqLastNotionals] <;> omega
+  have hl : (eqLastNotionals (eqState df idx dvd cur s.eq vd)).length = s.eq.periods.length := by
+    unfold eqState
+    rw [hrows]
+    simp [EqSt.init, eqLastNotionals]
+  have hz : (s.eq.periods.map (·.stop)).zip (eqLastNotionals (eqState df idx dvd cur s.eq vd)) ≠ [] := by
+    intro h
+    rcases List.zip_eq_nil_iff.mp h with h1 | h1
+    · exact hne (List.map_eq_nil_iff.mp h1)
+    · rw [h1] at hl; exact hne (List.length_eq_zero_iff.mp hl.symm)
   unfold eqSwapValue fillRateNotionals
   simp only [hm, ne_eq, not_true_eq_false, if_false]
   congr 1
-  rw [float_leg_eq_sum _ _ _ _ _ (by simpa using hlen)]
+  rw [float_leg_eq_sum _ _ _ _ _ (by simp [assign_length _ _ hz])]
   have := equity_leg_eq_sum df idx dvd cur s.eq vd
   unfold eqLegValue at this
   rw [this]
